@@ -22,11 +22,15 @@ def _nondet_real(tag):
 
 
 def _isfinite(I, args, kw):
-    # reals are always finite under A-REAL
-    return VBool(True)
+    # reals are always finite under A-REAL; the python-side constant VNaN is the one non-finite float
+    return VBool(not isinstance(args[0], VNaN))
 
 
 def _isnan(I, args, kw):
+    return VBool(isinstance(args[0], VNaN))
+
+
+def _isinf(I, args, kw):
     return VBool(False)
 
 
@@ -360,7 +364,16 @@ def _hashlib_new(algo):
     return f
 
 
+def _deepcopy(I, args, kw):
+    """copy.deepcopy(x): assumed contract = a structurally equal value sharing no mutable part with x.
+    Only modelled for the python-side JSON model (JObj trees), literal dicts and encodable containers."""
+    from . import jsontree
+    I.ver.note_assumption("copy.deepcopy returns a structurally equal value with fresh identities (trusted stdlib contract)")
+    return jsontree.deepcopy(I, I.force(args[0]))
+
+
 TABLE = {
+    ("copy", "deepcopy"): _deepcopy,
     ("hashlib", "sha256"): _hashlib_new("sha256"),
     ("concurrent", "ThreadPoolExecutor"): _thread_pool_executor,
     ("os", "makedirs"): _may_raise_oserror("makedirs"),
@@ -374,12 +387,15 @@ TABLE = {
     ("math", "sqrt"): _sqrt,
     ("math", "isfinite"): _isfinite,
     ("math", "isnan"): _isnan,
-    ("math", "isinf"): _isnan,
+    ("math", "isinf"): _isinf,
     ("time", "time"): _nondet_real("time.time"),
     ("time", "perf_counter"): _nondet_real("time.perf_counter"),
     ("time", "monotonic"): _nondet_real("time.monotonic"),
     ("collections", "deque"): B.bi_deque,
 }
+
+from . import ext_listing
+TABLE.update(ext_listing.TABLE)          # abstract directory listing (snapshot discovery, C06)
 
 TYPING = {"Any", "Dict", "List", "Tuple", "Optional", "Callable", "Iterable", "Iterator", "Generic", "TypeVar",
           "Deque", "Hashable", "Protocol", "Literal", "TypedDict", "Union", "Set", "Sequence", "Mapping",
@@ -407,8 +423,11 @@ def external_member(ver, modname, attr):
         return VModule("os.path", None)
     if modname == "os.path" and ("os.path", attr) in TABLE:
         return VFunc("builtin", "os.path.%s" % attr, impl=TABLE[("os.path", attr)])
+    full = (modname or "", attr)
+    if full in TABLE:
+        return VFunc("builtin", "%s.%s" % full, impl=TABLE[full])
     key = (modname.split(".")[0] if modname else "", attr)
-    if key in TABLE:
+    if key in TABLE and not (modname or "").startswith("os."):
         return VFunc("builtin", "%s.%s" % key, impl=TABLE[key])
     if key in fsmodel.TABLE:
         return VFunc("builtin", "%s.%s" % key, impl=fsmodel.TABLE[key])
